@@ -651,8 +651,16 @@ def main(argv=None):
         if status == 0:
             status = 2
     if missing and status == 0:
-        print('HARNESS-ERROR required classes never generated:', ', '.join(missing))
-        status = 2
+        starved = set(b.split('/')[0] for b in budget_hit)
+        hard = [m for m in missing if m.split(':')[0] not in starved]
+        soft = [m for m in missing if m.split(':')[0] in starved]
+        if soft:
+            # the sub-check ran out of its wall budget (loaded machine): fewer cases than configured is an inconclusive
+            # remainder, not a generator fault
+            print('NOTE classes not reached before the wall budget was hit:', ', '.join(soft))
+        if hard:
+            print('HARNESS-ERROR required classes never generated:', ', '.join(hard))
+            status = 2
 
     if not samples:
         for r in results:
